@@ -133,18 +133,6 @@ fn redirect_response(status: u16, location: &str) -> Vec<u8> {
 fn run_chain<B: Body>(ctx: &mut Ctx, rb: RequestBuilder<B>, base: &Model, chain: &Chain, kind: &str) {
     let n = chain.statuses.len();
     let responses: Vec<Vec<u8>> = (0..=n).map(|i| if i < n { redirect_response(chain.statuses[i], &chain.hops[i + 1].location_from(&chain.hops[i], i + chain.hops[i + 1].port as usize + chain.hops[0].host.len())) } else { OK_RESPONSE.to_vec() }).collect();
-    let servers: Arc<Mutex<Vec<(usize, std::thread::JoinHandle<ServerResult>)>>> = Arc::new(Mutex::new(Vec::new()));
-    let servers2 = servers.clone();
-    let world = World::install(move |req, idx, trace| {
-        let resp = responses.get(idx).cloned().unwrap_or_else(|| OK_RESPONSE.to_vec());
-        if req.proxy.is_some() && req.url.scheme() == "https" {
-            let (bridge, h) = Bridge::new(b"HTTP/1.1 200 OK\r\n\r\n".to_vec(), false, ServerSpec { cert: "good", response: resp }, trace.clone());
-            servers2.lock().unwrap().push((idx, h));
-            Answer::Custom(Box::new(bridge))
-        } else {
-            Answer::Script(vec![Step::Data(resp)], WriteFaults::default())
-        }
-    });
     // prepared once; sent a second time at the end (the second send starts again at hop 0)
     let mut prepared = match rb.proxy_settings(settings_of(&chain.cfg)).max_redirections(10).danger_accept_invalid_certs(true).try_prepare() {
         Ok(p) => p,
@@ -153,11 +141,36 @@ fn run_chain<B: Body>(ctx: &mut Ctx, rb: RequestBuilder<B>, base: &Model, chain:
             return;
         }
     };
-    let res = prepared.send();
-    let mut tunnel_requests: Vec<(usize, ServerResult)> = Vec::new();
-    for (idx, h) in servers.lock().unwrap().drain(..) {
-        tunnel_requests.push((idx, h.join().expect("tls server")));
-    }
+    let servers: Arc<Mutex<Vec<(usize, std::thread::JoinHandle<ServerResult>)>>> = Arc::new(Mutex::new(Vec::new()));
+    let mut attempt = 0;
+    let (world, res, tunnel_requests) = loop {
+        let servers2 = servers.clone();
+        let responses2 = responses.clone();
+        let world = World::install(move |req, idx, trace| {
+            let resp = responses2.get(idx).cloned().unwrap_or_else(|| OK_RESPONSE.to_vec());
+            if req.proxy.is_some() && req.url.scheme() == "https" {
+                let (bridge, h) = Bridge::new(b"HTTP/1.1 200 OK\r\n\r\n".to_vec(), false, ServerSpec { cert: "good", response: resp }, trace.clone());
+                servers2.lock().unwrap().push((idx, h));
+                Answer::Custom(Box::new(bridge))
+            } else {
+                Answer::Script(vec![Step::Data(resp)], WriteFaults::default())
+            }
+        });
+        let res = prepared.send();
+        let mut tunnel_requests: Vec<(usize, ServerResult)> = Vec::new();
+        for (idx, h) in servers.lock().unwrap().drain(..) {
+            tunnel_requests.push((idx, h.join().expect("tls server")));
+        }
+        // (a transport failure inside a tunnel that both ends of the bridge saw is what starvation on
+        //  an overloaded machine looks like: the chain is walked once more - a defect reproduces)
+        if attempt == 0 && res.as_ref().err().map_or(false, |e| crate::bridge::starved(&format!("{e:?}"), tunnel_requests.last().map(|(_, r)| r))) && !tunnel_requests.is_empty() {
+            attempt += 1;
+            ctx.count("bridged_chains_rerun_after_a_transport_failure", 1);
+            drop(world);
+            continue;
+        }
+        break (world, res, tunnel_requests);
+    };
     let descr = |x: &str| format!("{x}; body kind {kind}; chain={:?} statuses={:?} proxies(http={:?}, https={:?}) no_proxy={:?}", chain.hops.iter().map(|h| h.url()).collect::<Vec<_>>(), chain.statuses, chain.cfg.http, chain.cfg.https, chain.cfg.no_proxy);
     if let Err(e) = &res {
         ctx.violation(format!("chain-send-failed:{kind}"), descr(&format!("send() failed: {e:?}")));
